@@ -37,7 +37,7 @@ S0 == [q |-> "idle", req |-> <<>>, hasReq |-> FALSE, blkOpen |-> FALSE, pblk |->
 
 M0(tr) == [cfg |-> tr.cfg, s |-> << >>, hb |-> 0, maxSid |-> 0,
            maxFrameSrv |-> 16384, srvIW |-> 65535, maxConcAdv |-> -1,
-           peerIW |-> 65535, peerMFS |-> 16384, mfsQ |-> <<>>,
+           peerIW |-> 65535, iwSent |-> 65535, peerMFS |-> 16384, mfsQ |-> <<>>,
            grantC |-> 65535, sentC |-> 0, srvGrantC |-> 65535, peerSentC |-> 0,
            goaways |-> <<>>, closed |-> FALSE, connErr |-> FALSE, peerGone |-> FALSE,
            cur |-> NoFrame, hasCur |-> FALSE, curAfterClose |-> FALSE, blkBad |-> FALSE, desync |-> FALSE, pings |-> <<>>, gaPc |-> "G1", gaRead |-> 0, slPub |-> 0, multi |-> FALSE, allowed |-> {}, obs |-> NoObs,
@@ -67,7 +67,7 @@ MaxStrWin(mm) ==
   IF ws = {} THEN 0 ELSE CHOOSE w \in ws : \A x \in ws : x <= w
 
 Ctx(mm) == [hb |-> mm.hb, maxSid |-> mm.maxSid, maxFrame |-> mm.maxFrameSrv, winC |-> mm.grantC - mm.sentC,
-            maxStrWin |-> MaxStrWin(mm), iw |-> mm.peerIW]
+            maxStrWin |-> MaxStrWin(mm), iw |-> mm.iwSent]
 SCtx(mm, sid) == [win |-> St(mm, sid).grant - St(mm, sid).sent,
                   refuse |-> Cardinality(Active(mm)) >= MaxConc(mm),
                   closing |-> mm.goaways # <<>>]
@@ -142,6 +142,14 @@ Transition(mm, f, errOnSid, connErrNow) ==
 (* Ledgers: grant / grantC / srvGrant / srvGrantC hold the REMAINING window (they may go negative after a
    SETTINGS decrease); sent / sentC / flowSent / peerSentC are kept at 0 so that `grant - sent` reads as before.
    Cumulative totals would leave TLC's 32-bit integers on long transfers. *)
+\* a change of the peer's INITIAL_WINDOW_SIZE by d takes effect in the ledger: every stream the server may still send on moves by d
+ApplyIW(mm, d) ==
+  [mm EXCEPT !.peerIW = @ + d,
+             !.s = [sid \in DOMAIN mm.s |->
+                      IF mm.s[sid].q \in {"open", "hcr"} /\ ~(d > 0 /\ Overflows(mm.s[sid].grant - mm.s[sid].sent, d))
+                         /\ ~(d > 0 /\ mm.s[sid].grant > 0 /\ d > MaxWin - mm.s[sid].grant)
+                      THEN [mm.s[sid] EXCEPT !.grant = @ + d] ELSE mm.s[sid]]]
+
 (* send: the peer put frame f on the wire.                                   *)
 OnSend(mm0, f0) ==
   LET mm == IF mm0.hasCur THEN [Transition(mm0, mm0.cur, FALSE, FALSE) EXCEPT !.multi = TRUE] ELSE mm0
@@ -177,16 +185,18 @@ OnSend(mm0, f0) ==
                        !.grantC = @ + (IF f.ty = T_WU /\ f.sid = 0 /\ f.len = 4 /\ ~Overflows(mm.grantC - mm.sentC, f.inc) THEN f.inc ELSE 0),
                        \* the peer's MAX_FRAME_SIZE binds the frames the server sends after its ACK; a larger one may be used at once
                        !.peerMFS = IF f.ty = T_SETTINGS /\ ~f.ack /\ f.mfs >= 0 /\ f.sbad = 0 /\ f.mfs > @ THEN f.mfs ELSE @,
+                       \* one entry per SETTINGS frame, taken off when its ACK arrives: the smaller frame size and the
+                       \* window DEcrease it carries bind the server from that ACK on (what is in flight before it is judged
+                       \* by the old values); increases are the peer's commitment from the moment it sends them
                        !.mfsQ = IF f.ty = T_SETTINGS /\ ~f.ack /\ f.sid = 0 /\ f.len % 6 = 0
-                                THEN Append(@, IF f.sbad = 0 THEN f.mfs ELSE -1) ELSE @]
+                                THEN Append(@, [mfs |-> IF f.sbad = 0 THEN f.mfs ELSE -1,
+                                                iwd |-> IF f.sbad = 0 /\ f.iw >= 0 /\ f.iw < mm.iwSent THEN f.iw - mm.iwSent ELSE 0]) ELSE @,
+                       !.iwSent = IF f.ty = T_SETTINGS /\ ~f.ack /\ f.iw >= 0 /\ f.sbad = 0 THEN f.iw ELSE @]
       m2 == IF f.sid # 0 THEN Put(m1, f.sid, r3) ELSE m1
-      \* INITIAL_WINDOW_SIZE change: delta on every stream the server may still send on
-      m3 == IF f.ty = T_SETTINGS /\ ~f.ack /\ f.iw >= 0 /\ f.sbad = 0
-            THEN [m2 EXCEPT !.peerIW = f.iw,
-                            !.s = [sid \in DOMAIN m2.s |->
-                                     IF m2.s[sid].q \in {"open", "hcr"} /\ ~(f.iw > m2.peerIW /\ Overflows(m2.s[sid].grant - m2.s[sid].sent, f.iw - m2.peerIW))
-                                        /\ ~(f.iw > m2.peerIW /\ m2.s[sid].grant > 0 /\ f.iw - m2.peerIW > MaxWin - m2.s[sid].grant)
-                                     THEN [m2.s[sid] EXCEPT !.grant = @ + (f.iw - m2.peerIW)] ELSE m2.s[sid]]]
+      \* INITIAL_WINDOW_SIZE increase: delta on every stream the server may still send on, at once
+      d == f.iw - mm.iwSent
+      m3 == IF f.ty = T_SETTINGS /\ ~f.ack /\ f.iw >= 0 /\ f.sbad = 0 /\ d > 0
+            THEN ApplyIW(m2, d)
             ELSE m2
   IN m3
 
@@ -246,7 +256,9 @@ OnRecv(mm, f) ==
   ELSE IF f.ty = T_SETTINGS THEN
      IF f.ack THEN
         LET m1 == IF mm.mfsQ = <<>> THEN mm
-                  ELSE [mm EXCEPT !.mfsQ = Tail(@), !.peerMFS = IF Head(mm.mfsQ) >= 0 THEN Head(mm.mfsQ) ELSE @]
+                  ELSE LET h == Head(mm.mfsQ)
+                           m0 == [mm EXCEPT !.mfsQ = Tail(@), !.peerMFS = IF h.mfs >= 0 THEN h.mfs ELSE @]
+                       IN IF h.iwd < 0 THEN ApplyIW(m0, h.iwd) ELSE m0
         IN FlagIf([m1 EXCEPT !.ackRecv = @ + 1], mm.ackRecv + 1 > mm.setSent, "C18:ack-without-settings")
      ELSE [mm EXCEPT !.maxFrameSrv = IF f.mfs >= 0 THEN f.mfs ELSE @,
                      !.srvIW = IF f.iw >= 0 THEN f.iw ELSE @,
@@ -346,7 +358,9 @@ Progress(mm, e) ==
       c9 == FlagIf(c8, e.hdrb > MaxHdr(mm) + 16384 + 9, "C13:buffered-header-bytes-exceed-bound")
       c9b == FlagIf(c9, e.strms <= 100 /\ MaxBody(mm) < 16000000 /\ e.bodyb > e.strms * (MaxBody(mm) + 16384),
                     "C13:buffered-request-body-bytes-exceed-bound")
-      c10a == FlagIf(c9b, e.rdlen > 128 \/ e.wrlen > 128, "C13:queue-exceeds-capacity")
+      c10a0 == FlagIf(c9b, e.rdlen > 128 \/ e.wrlen > 128, "C13:queue-exceeds-capacity")
+      \* goroutines: three loops, Serve itself and its timers, one per running handler - not one per frame received
+      c10a == FlagIf(c10a0, e.gor > e.running + 12, "C13:goroutines-grow-with-the-frames-received")
       \* the server's own books against the ledger the monitor keeps from the wire: drift is a latent violation -
       \* a connection window the peer never granted (C06), a slot count that refuses or admits streams wrongly (C13)
       slots == {sid \in DOMAIN mm.s : sid # 0 /\ (mm.s[sid].q \in {"open", "hcr"} \/ (mm.s[sid].hs >= 1 /\ mm.s[sid].he = 0))}
